@@ -1,5 +1,6 @@
 """C09 wrap safety: sequence numbers only through the modular type; tolerance vs configured windows."""
 from .common import *
+from utpsa.facts import short_owner
 
 SEQ_BODIES = ("seq_nr::", "<seq_nr::SeqNr as ")
 ORDER_OPS = {"Lt", "Le", "Gt", "Ge", "Cmp"}
@@ -240,3 +241,264 @@ def c09_4(R):
         for s in b.stmts():
             if s.rv.kind == "bin" and s.rv.op in ADD_OPS | SUB_OPS | MUL_OPS:
                 R.fail([b.name, "raw-arithmetic", s.rv.op], "built-in arithmetic on a sequence number inside seq_nr.rs", where=s.where(), instance="seqnr-arith-wraps")
+
+
+# ---- C09.5: the two numbering spaces ---------------------------------------------------------------------------------------
+# Every sequence-number slot of the connection logic belongs to exactly one of the two independent numberings of a connection:
+# "local" (what we number our own packets with; the peer acknowledges it in its ack_nr) or "remote" (what the peer numbers its
+# packets with; we acknowledge it in our ack_nr).  Confirmed by reading the declaration comments and every store of each field.
+SPACE_FIELDS = {
+    "VirtualSocket.seq_nr": "local", "VirtualSocket.last_sent_seq_nr": "local",
+    "StreamArgs.seq_nr": "local", "StreamArgs.last_sent_seq_nr": "local",
+    "VirtualSocketState::FinWait1.our_fin": "local", "VirtualSocketState::LastAck.our_fin": "local",
+    "Segments.snd_una": "local", "SegmentForSending.seq_nr": "local",
+    "Recovering.recovery_point": "local", "Recovering.high_rxt": "local", "RecoveryPhase::IgnoringUntilRecoveryPoint.recovery_point": "local",
+    "LastAck.ack_nr": "local",  # recovery::LastAck: the ack_nr of the last *incoming* header
+    "PopExpiredProbe::Expired.rewind_to": "local",
+    "Connecting.seq_nr": "local",  # socket::Connecting: the seq_nr our SYN carried, matched against the ack_nr of the reply
+    "VirtualSocket.last_consumed_remote_seq_nr": "remote", "VirtualSocket.last_sent_ack_nr": "remote",
+    "StreamArgs.last_consumed_remote_seq_nr": "remote", "StreamArgs.last_sent_ack_nr": "remote",
+    "VirtualSocketState::LastAck.remote_fin": "remote",
+}
+HDR_IN = {"UtpHeader.seq_nr": "remote", "UtpHeader.ack_nr": "local"}    # a header that arrived
+HDR_OUT = {"UtpHeader.seq_nr": "local", "UtpHeader.ack_nr": "remote"}   # a header we build
+WRAPPERS = ("Option::Some.", "tuple.", "ControlFlow::", "Result::Ok.")
+IN_HEADER_FIELDS = ("UtpMessage.header", "Syn.header")
+SPACE_MODULES = ("stream_dispatch::", "recovery::", "stream_tx_segments::", "socket::")
+SEQ_BINARY = ("PartialEq::eq", "PartialEq::ne", "PartialEq>::eq", "PartialEq>::ne", "PartialOrd::lt", "PartialOrd::le", "PartialOrd::gt", "PartialOrd::ge",
+              "PartialOrd>::lt", "PartialOrd>::le", "PartialOrd>::gt", "PartialOrd>::ge", "PartialOrd>::partial_cmp", "PartialOrd::partial_cmp", "Ord>::cmp", "Ord::cmp",
+              "Ord::max", "Ord::min", "Ord>::max", "Ord>::min", "Sub>::sub")
+
+
+def _is_seq_ty(ty):
+    return (ty or "").replace("&", "").replace("mut ", "").strip() == "seq_nr::SeqNr"
+
+
+def _op_ty(body, o):
+    if o.place is not None and o.place.is_local:
+        return body.local_ty(o.place.local)
+    return o.ty if o.kind == "const" else None
+
+
+class Spaces:
+    def __init__(self, F):
+        self.F = F
+        self.memo = {}
+
+    def of_op(self, body, op, depth=0):
+        t, _k = affine_trace(body, op)
+        return self.of_trace(body, t, depth)
+
+    def of_trace(self, body, t, depth=0):
+        if depth > 5:
+            return None
+        fields = [f for f in t.fields if not f.startswith(WRAPPERS)]
+        if fields:
+            f = fields[-1]
+            if f in SPACE_FIELDS:
+                return SPACE_FIELDS[f]
+            if f in HDR_IN:
+                return self.header_direction(body, t, depth, f)
+            return None
+        if t.kind == "call":
+            c = t.root[1]
+            r = c.resolved or c.callee or ""
+            if r.startswith("<seq_nr::SeqNr as std::ops::Add<") or r.startswith("<seq_nr::SeqNr as std::ops::Sub<u16>") or call_matches(c, ("Clone::clone", "Deref::deref", "Ord::max", "Ord::min")):
+                if _is_seq_ty(_op_ty(body, c.args[0])) or c.args[0].place is not None:
+                    return self.of_op(body, c.args[0], depth + 1)
+            cb = self.F.body(r)
+            if cb is not None and not r.startswith(SEQ_BODIES):
+                return self.of_return(cb, depth + 1)
+            return None
+        if t.kind == "param" and body.kind != "closure":
+            key = ("param", body.name, t.root[1])
+            if key in self.memo:
+                return self.memo[key]
+            self.memo[key] = None
+            got = set()
+            for cb, ct in call_sites_of(self.F, body.name):
+                i = t.root[1] - 1
+                if i < len(ct.args):
+                    got.add(self.of_op(cb, ct.args[i], depth + 1))
+            got.discard(None)
+            self.memo[key] = got.pop() if len(got) == 1 else None
+            return self.memo[key]
+        if t.kind == "upvar":
+            from utpsa.prov import upvar_origin
+            o = upvar_origin(body, t.root[1])
+            if o is not None:
+                kind, idx, owner = o
+                return self.of_trace(owner, trace(owner, Place({"l": idx, "p": []})), depth + 1)
+        if t.kind == "multi":
+            # a variable bound in several match arms (`FinWait1 { our_fin } | LastAck { our_fin, .. }`): every binding must be of one space
+            got = set()
+            for d in t.root[3]:
+                if isinstance(d, Stmt) and d.rv.kind == "use" and d.rv.ops[0].kind != "const":
+                    got.add(self.of_op(body, d.rv.ops[0], depth + 1))
+                elif isinstance(d, Stmt) and d.rv.kind == "ref" and d.rv.place is not None:
+                    got.add(self.of_trace(body, trace(body, d.rv.place), depth + 1))
+                elif isinstance(d, Stmt) and d.rv.kind == "agg" and d.rv.j.get("ak") == "adt" and short_owner(d.rv.j.get("adt", "")).startswith("Option"):
+                    if d.rv.ops:
+                        got.add(self.of_op(body, d.rv.ops[0], depth + 1))
+                else:
+                    got.add(None)
+            return got.pop() if len(got) == 1 else None
+        return None
+
+    def header_direction(self, body, t, depth, f):
+        """which way the header travels.  UtpMessage (built only by the parser) and socket::Syn (filled from one) hold headers that arrived; a UtpHeader
+        aggregate, or the result of a crate fn that returns one (outgoing_header), is on its way out; a bare &UtpHeader parameter / captured variable
+        is whatever every call site / the owning fn passes."""
+        if body.name.startswith("raw::") or body.name.startswith("<raw::"):
+            return None
+        i = max(n for n, x in enumerate(t.fields) if x == f)
+        d = self.direction(body, t, [x for x in t.fields[:i] if not x.startswith(WRAPPERS)], depth)
+        return None if d is None else (HDR_IN if d == "in" else HDR_OUT)[f]
+
+    def direction(self, body, t, prefix, depth):
+        if depth > 6:
+            return None
+        if prefix:
+            return "in" if prefix[-1] in IN_HEADER_FIELDS else None
+        if t.kind == "rv" and t.root[1].rv.kind == "agg":
+            return "out" if short_owner(t.root[1].rv.j.get("adt", "")) == "UtpHeader" else None
+        if t.kind == "call":
+            r = t.root[1].resolved or ""
+            if "deserialize" in r:
+                return "in"
+            if r.startswith("<raw::UtpHeader as std::default::Default>"):
+                return "out"  # a blank header that this code goes on to fill
+            if call_matches(t.root[1], ("Clone::clone", "Deref::deref")):
+                return self._dir_op(body, t.root[1].args[0], depth + 1) if t.root[1].args else None
+            cb = self.F.body(r)
+            if cb is not None and not r.startswith(("raw::", "<raw::")):
+                key = ("dret", r)
+                if key not in self.memo:
+                    self.memo[key] = None
+                    rt = trace(cb, Place({"l": 0, "p": []}))
+                    self.memo[key] = self.direction(cb, rt, [x for x in rt.fields if not x.startswith(WRAPPERS)], depth + 1)
+                return self.memo[key]
+            return None
+        if t.kind == "param" and body.kind != "closure":
+            key = ("dparam", body.name, t.root[1])
+            if key in self.memo:
+                return self.memo[key]
+            self.memo[key] = None
+            got = set()
+            for cb, ct in call_sites_of(self.F, body.name):
+                i = t.root[1] - 1
+                if i < len(ct.args):
+                    got.add(self._dir_op(cb, ct.args[i], depth + 1))
+            self.memo[key] = got.pop() if len(got) == 1 else None
+            return self.memo[key]
+        if t.kind == "upvar":
+            from utpsa.prov import upvar_origin
+            o = upvar_origin(body, t.root[1])
+            if o is not None:
+                kind, idx, owner = o
+                ot = trace(owner, Place({"l": idx, "p": []}))
+                return self.direction(owner, ot, [x for x in ot.fields if not x.startswith(WRAPPERS)], depth + 1)
+        return None
+
+    def _dir_op(self, body, op, depth):
+        t = trace(body, op)
+        return self.direction(body, t, [x for x in t.fields if not x.startswith(WRAPPERS)], depth)
+
+    def of_return(self, cb, depth):
+        key = ("ret", cb.name)
+        if key in self.memo:
+            return self.memo[key]
+        self.memo[key] = None
+        got = set()
+        for d in cb.all_defs(0):
+            if isinstance(d, Stmt):
+                if d.rv.kind == "agg" and d.rv.ops and d.rv.j.get("ak") == "adt" and short_owner(d.rv.j.get("adt", "")).startswith("Option"):
+                    got.add(self.of_op(cb, d.rv.ops[0], depth + 1))
+                elif d.rv.kind == "use" and d.rv.ops[0].kind != "const":
+                    got.add(self.of_op(cb, d.rv.ops[0], depth + 1))
+            elif getattr(d, "kind", None) == "call":
+                got.add(self.of_trace(cb, trace(cb, Place({"l": 0, "p": []})), depth + 1) if len(cb.all_defs(0)) == 1 else None)
+        got.discard(None)
+        self.memo[key] = got.pop() if len(got) == 1 else None
+        return self.memo[key]
+
+
+@rule("C09.5", ["C09", "C17", "C06"], ["E1", "E4"], "the two independent numberings of a connection are never compared with, subtracted from or stored into one another",
+      "A connection has two independent sequence spaces: ours (seq_nr of what we send = ack_nr of what arrives) and the peer's (seq_nr of what arrives = ack_nr of what we send). Relabelling the two "
+      "initial numbers independently leaves behaviour unchanged only if no value of one space is ever ordered against, subtracted from or stored in a slot of the other. Every SeqNr field of "
+      "VirtualSocket / VirtualSocketState / StreamArgs / Segments / Recovery is assigned its space in a table (confirmed by reading); header fields get theirs from the direction the header travels "
+      "(a header that reached the fn as a parameter arrived; one built in place leaves); bare parameters take the space every call site passes, call results the space the callee returns. "
+      "At every SeqNr x SeqNr comparison / subtraction / max / min, every aggregate that fills a tabled field, and every assignment to a tabled field, both sides must be of the same space "
+      "(sites where one side cannot be classified are counted, not judged).")
+def c09_5(R):
+    F = R.facts
+    sp = Spaces(F)
+    judged = skipped = 0
+    stores = 0
+    for b in F.bodies():
+        if not b.name.startswith(SPACE_MODULES) or "::tests" in b.name:
+            continue
+        for t in b.calls():
+            r = t.resolved or t.callee or ""
+            if len(t.args) != 2 or not r.endswith(SEQ_BINARY):
+                continue
+            if not all(_is_seq_ty(_op_ty(b, a)) for a in t.args):
+                continue
+            x, y = sp.of_op(b, t.args[0]), sp.of_op(b, t.args[1])
+            dx, dy = affine(b, t.args[0])[0], affine(b, t.args[1])[0]
+            if x is None or y is None:
+                skipped += 1
+                R.note("unclassified operand at %s: %s (%s) vs %s (%s)" % (t.where(), dx, x, dy, y))
+                continue
+            judged += 1
+            if x == y:
+                R.ok("same-space-operands", b.name, "%s: %s ~ %s (%s)" % (r.split("::")[-1], dx, dy, x))
+            else:
+                R.fail([b.name, "mixed-spaces", r.split("::")[-1], "%s:%s" % (x, dx), "%s:%s" % (y, dy)],
+                       "a %s sequence number (%s) is %s a %s one (%s): the two numberings start at independent random values, so the outcome depends on how the two initial numbers happen to relate"
+                       % (x, dx, "compared with" if "sub" not in r else "subtracted from/with", y, dy), where=t.where(), instance="same-space-operands")
+        for s in b.stmts():
+            rv = s.rv
+            if rv is None:
+                continue
+            targets = []
+            if rv.kind == "agg" and rv.j.get("ak") == "adt":
+                owner = rv.j.get("adt", "")
+                var = rv.j.get("variant")
+                names = rv.j.get("fields") or []
+                on = short_owner(owner)
+                cand = [on + "::" + var if var and not on.endswith(var) else on, on]
+                for nm, o in zip(names, rv.ops):
+                    for c_ in cand:
+                        fn_ = "%s.%s" % (c_, nm)
+                        if fn_ in SPACE_FIELDS:
+                            targets.append((fn_, SPACE_FIELDS[fn_], o))
+                            break
+                        if fn_ in HDR_OUT and not b.name.startswith(("raw::", "<raw::")):
+                            targets.append((fn_ + "(outgoing)", HDR_OUT[fn_], o))
+                            break
+            elif rv.kind == "use" and s.place.proj:
+                f, _, _ = place_fields(b, s.place)
+                if f and f[-1] in SPACE_FIELDS:
+                    targets.append((f[-1], SPACE_FIELDS[f[-1]], rv.ops[0]))
+                elif f and f[-1] in HDR_OUT and len(f) == 1 and sp._dir_op(b, Place({"l": s.place.local, "p": []}), 0) == "out":
+                    targets.append((f[-1] + "(outgoing)", HDR_OUT[f[-1]], rv.ops[0]))
+            for fn_, want, o in targets:
+                if o.kind == "const":
+                    continue
+                got = sp.of_op(b, o)
+                d = affine(b, o)[0]
+                if got is None:
+                    skipped += 1
+                    R.note("unclassified value stored into %s at %s: %s" % (fn_, s.where(), d))
+                    continue
+                stores += 1
+                if got == want:
+                    R.ok("same-space-store", b.name, "%s <- %s (%s)" % (fn_, d, got))
+                else:
+                    R.fail([b.name, "mixed-spaces-store", fn_, "%s:%s" % (got, d)],
+                           "%s holds a %s sequence number but is filled from %s, which is a %s one: every later comparison against it mixes the two independent numberings" % (fn_, want, d, got),
+                           where=s.where(), instance="same-space-store")
+    R.note("judged %d binary sites, %d stores; %d sites had an unclassifiable side" % (judged, stores, skipped))
+    R.floor("SeqNr x SeqNr sites with both sides classified", judged, 26)
+    R.floor("stores into tabled sequence fields with the value classified", stores, 36)
